@@ -2,6 +2,7 @@ package checks
 
 import (
 	"fmt"
+	"time"
 
 	"github.com/Vedant9500/WTF/internal/zzvrt/vsched"
 )
@@ -37,6 +38,10 @@ type schedExplorer struct {
 	Diverged   string
 	Deadlocks  int64
 	MaxPreempt int
+	// Stuck: an execution did not finish within the watchdog time: some thread blocked on a primitive the
+	// scheduler does not control (a channel, a real lock). Exploration cannot continue in this process.
+	Stuck   bool
+	Spawned int // most goroutines started by the code under test in one execution
 	// Body builds the thread bodies of one fresh execution and a function
 	// that checks it afterwards (called with the finished execution).
 	Body func() (threads []func(), check func(x *schedExec))
@@ -45,19 +50,35 @@ type schedExplorer struct {
 func (e *schedExplorer) run(prefix []int) *schedExec {
 	threads, check := e.Body()
 	x := &schedExec{}
-	s := vsched.Run(func(i int, p *vsched.Point) int {
-		c := 0
-		if i < len(prefix) {
-			c = prefix[i]
-			if c >= len(p.Enabled) {
-				if e.Diverged == "" {
-					e.Diverged = fmt.Sprintf("replay divergence at point %d: choice %d of %d enabled", i, c, len(p.Enabled))
+	if e.Stuck {
+		return x
+	}
+	done := make(chan *vsched.Sched, 1)
+	go func() {
+		done <- vsched.Run(func(i int, p *vsched.Point) int {
+			c := 0
+			if i < len(prefix) {
+				c = prefix[i]
+				if c >= len(p.Enabled) {
+					if e.Diverged == "" {
+						e.Diverged = fmt.Sprintf("replay divergence at point %d: choice %d of %d enabled", i, c, len(p.Enabled))
+					}
+					c = 0
 				}
-				c = 0
 			}
-		}
-		return c
-	}, threads...)
+			return c
+		}, threads...)
+	}()
+	var s *vsched.Sched
+	select {
+	case s = <-done:
+	case <-time.After(40 * time.Second):
+		e.Stuck = true
+		return x
+	}
+	if s.Spawned > e.Spawned {
+		e.Spawned = s.Spawned
+	}
 	x.Sched = s
 	x.Points = s.Trace
 	x.Choices = make([]int, len(s.Trace))
@@ -84,6 +105,9 @@ func (e *schedExplorer) explore(prefix []int) {
 		return
 	}
 	x := e.run(prefix)
+	if e.Stuck {
+		return
+	}
 	for i := len(prefix); i < len(x.Points); i++ {
 		p := x.Points[i]
 		if len(p.Enabled) < 2 {
@@ -102,7 +126,7 @@ func (e *schedExplorer) explore(prefix []int) {
 		for alt := 1; alt < len(p.Enabled); alt++ {
 			np := append(append([]int{}, x.Choices[:i]...), alt)
 			e.explore(np)
-			if e.Capped {
+			if e.Capped || e.Stuck {
 				return
 			}
 		}
